@@ -199,4 +199,19 @@ def run(repo, tier):
     res.floor('PRF', 12)
     res.floor('SPEC', 20)
     res.floor('L5', 1)
+    from .common import run_clone_pairs
+    run_clone_pairs(repo, res, {m for m in repo.modules if m.startswith('photutils.psf') and '.tests' not in m})
+    from .common import apply_specs, guard_only
+    apply_specs(repo, res, [
+        (FM + '.AiryDiskPSF.evaluate', 'stmt', 'r = r.to_value(u.dimensionless_unscaled)',
+         'the scaled radius is reduced to a pure number (unit ratios such as cm/mm folded in) before the Bessel function'),
+    ])
+    bw = repo.method('photutils.psf.gridded_models.GriddedPSFModel', '_calc_bilinear_weights')
+    for axn in ('xi', 'yi'):
+        hits = [a_ for a_ in ast.walk(bw.node) if isinstance(a_, ast.Assign) and unparse(a_.targets[0], 0) == axn
+                and isinstance(a_.value, ast.Call) and unparse(a_.value.func, 0).endswith('clip')]
+        if len(hits) != 1:
+            raise AnalysisError(f'vanished anchor: clip of {axn} in _calc_bilinear_weights')
+        guard_only(res, 'GUARD', bw, hits[0], set(), f'the clip of `{axn}` to its cell',
+                   'outside the grid along one axis the weights are extrapolated (negative weight) instead of taking the nearest edge')
     return res
